@@ -31,9 +31,9 @@ ASSUMPTIONS = ["formal charges are the ones Mol2Atom.formal_charge reports (the 
                "radius tables: ZAP9 by Sybyl type then element, then Bondi (values copied from the cited papers into "
                "the harness)"]
 MIN = {"quick": {"molecules": 300, "conservation_checks": 300, "rename_pairs": 250, "permutation_pairs": 250,
-                 "complex_runs": 25, "complex_pka_route_runs": 3},
+                 "complex_runs": 25, "complex_pka_route_runs": 3, "complex_ligand_serials_repeat": 5},
        "thorough": {"molecules": 12000, "conservation_checks": 12000, "rename_pairs": 10000,
-                    "permutation_pairs": 10000, "complex_runs": 900, "complex_pka_route_runs": 100}}
+                    "permutation_pairs": 10000, "complex_runs": 900, "complex_pka_route_runs": 100, "complex_ligand_serials_repeat": 200}}
 
 ZAP9 = {"C": 1.87, "H": 1.10, "O.co2": 1.76, "N": 1.40, "S": 2.15, "F": 2.40, "Cl": 1.82, "I": 2.65}
 BONDI = {"H": 1.20, "He": 1.40, "C": 1.70, "N": 1.55, "O": 1.52, "F": 1.47, "Ne": 1.54, "Si": 2.10, "P": 1.80,
